@@ -5,7 +5,7 @@
 From Coq Require Import List NArith ZArith Bool Ascii String.
 From Authlib Require Import Base.Bytes Base.Base64 Base.BigEndian Base.PyVal Base.Url Base.Percent Base.Utf8 Base.Form.
 From Authlib Require Proofs.UrlP.
-From Authlib Require Import Model.JWK Model.Claims Spec.ClaimsSpec Model.Resource Model.Scope Model.ClientAuth Model.Metadata Spec.MetadataSpec Model.Registration Model.Wire Model.OAuth1Sig.
+From Authlib Require Import Model.JWK Model.Claims Spec.ClaimsSpec Model.Resource Model.Scope Model.ClientAuth Model.Metadata Spec.MetadataSpec Model.Registration Model.Wire Model.OAuth1Sig Model.Authorize.
 Import ListNotations.
 Open Scope string_scope.
 
@@ -262,6 +262,23 @@ Definition dispatch_oauth1sig (fn : string) (a : pv) : option pv :=
     Some (PStr (render_body (pairs_of_pv (arg "oauth_params" a)) (pairs_of_pv (arg "body_params" a))))
   else None.
 
+Definition oclient_of (c : pv) : oclient :=
+  {| oc_id := arg_s "id" c; oc_redirects := arg_strs "redirect_uris" c; oc_response_types := arg_strs "response_types" c;
+     oc_auth_method := arg_s "auth_method" c; oc_scope := arg_s "scope" c |}.
+Definition acfg_of (a : pv) : acfg :=
+  {| a_clients := map oclient_of (arg_l "clients" a); a_scopes_supported := arg_strs "scopes_supported" a;
+     a_used_nonces := pairs_of_pv (arg "used_nonces" a); a_require_nonce := arg_b "require_nonce" a |}.
+Definition pv_of_aresp (r : aresp) : pv :=
+  match r with
+  | ALocal st e => PList [PStr "local"; PInt (Z.of_N st); PStr e]
+  | ARedirect t ps fr => PList [PStr "redirect"; PStr t; pv_of_pairs ps; PBool fr]
+  | AFormPost t ps => PList [PStr "form_post"; PStr t; pv_of_pairs ps]
+  end.
+Definition dispatch_authorize (fn : string) (a : pv) : option pv :=
+  if String.eqb fn "authorize_respond" then
+    Some (pv_of_aresp (respond (acfg_of (arg "config" a)) (pairs_of_pv (arg "query" a)) (pairs_of_pv (arg "form" a)) (arg_b "approve" a)))
+  else None.
+
 Definition dispatch (fn : string) (a : pv) : pv :=
   if String.eqb fn "oracle_echo" then oracle "echo" a else
   match dispatch_jwk fn a with
@@ -293,6 +310,9 @@ Definition dispatch (fn : string) (a : pv) : pv :=
   | None =>
   match dispatch_oauth1sig fn a with
   | Some r => r
+  | None =>
+  match dispatch_authorize fn a with
+  | Some r => r
   | None => err ("unknown function " ++ fn)
-  end end end end end end end end end end.
+  end end end end end end end end end end end.
 End D.
